@@ -12,6 +12,7 @@
 #include "stir/DetectionPositionPair.h"
 #include "stir/Succeeded.h"
 #include <fstream>
+#include <unistd.h>
 #include <iomanip>
 
 namespace rpdi {
@@ -96,7 +97,8 @@ inline shared_ptr<Scanner> make_scanner(const Cfg& c, const std::string& tmpdir)
   if (c.geom == "gen")
     {
       // crystal map identical to the cylindrical positions (so that results are comparable with geom=cyl)
-      const std::string fn = tmpdir + "/crystal_map_D" + std::to_string(D) + "_R" + std::to_string(R) + ".txt";
+      // per-process file name: all shards share the temp directory, and a file that another shard is just rewriting reads back truncated
+      const std::string fn = tmpdir + "/crystal_map_p" + std::to_string((long)getpid()) + "_D" + std::to_string(D) + "_R" + std::to_string(R) + ".txt";
       {
         std::ofstream f(fn);
         f << std::setprecision(9);
